@@ -189,6 +189,8 @@ def run(check):
         existing_output(check)
     if not check.has_failing():
         folder_mode_part(check)
+    if not check.has_failing():
+        folder_mappings_part(check)
     check.exhaustive = True
     check.extra["exhaustive_scope"] = "7 settings x {option absent, present} x {key absent, present} x {-c, ancestor search}"
     check.assumptions += ["TOML (de)serialisation by the `toml` crate and option parsing by `clap` are external; they are exercised through the real binary",
@@ -259,6 +261,54 @@ def folder_mode_part(check):
                     check.violation("%s -d with %s %s = %r: the module of crate `%s` should carry `%s`, it has %s"
                                     % (L, source, key, val, c, want, got), case={"lang": L, "source_of_setting": source, "value": val, "crate": c},
                                     impl={"rc": r["rc"], "files": {k: v[:600] for k, v in outs.items()}}, failing_input=True)
+                    return
+
+
+def folder_mappings_part(check):
+    """file-only settings are applied unchanged in folder mode too, and each language reads *its own* table: the type_mappings tables
+    of the six languages have different key sets here (the language under test maps `Stamp`, all others map `Token`), the types are
+    defined in one crate and used in another.  The binary's files equal what the back end writes in-process when it is handed the
+    very table of its language (definitions, mapped names and import lines alike)"""
+    A = "#[typeshare]\npub struct Stamp { pub at: u32 }\n#[typeshare]\npub struct Token { pub t: String }\n#[typeshare]\npub struct Plain { pub p: u8 }\n"
+    B = ("use alpha::{Stamp, Token, Plain};\n#[typeshare]\npub struct Api { pub s: Stamp, pub t: Vec<Token>, pub p: Plain }\n"
+         "#[typeshare]\npub type Tokens = HashMap<String, Token>;\n")
+    for L in LANGS:
+        for own, others in (("Stamp", "Token"), ("Token", "Stamp"), (None, "Token")):
+            tables = {M: {"type_mappings": ({own: "Mapped" + own} if own else {}) if M == L else {others: "Other" + M.title()}} for M in LANGS}
+            with Scratch() as sc:
+                sc.write("ws/alpha/src/lib.rs", A)
+                sc.write("ws/beta/src/lib.rs", B)
+                sc.write("ws/typeshare.toml", toml_text({}, tables))
+                r = run_cli(["--lang", L, "-d", sc.path("out")] + lang_args(L) + [sc.path("ws")], cwd=sc.path("ws"))
+                outs = {fn: open(os.path.join(sc.path("out"), fn), encoding="utf-8").read() for fn in sorted(os.listdir(sc.path("out")))} \
+                    if os.path.isdir(sc.path("out")) else {}
+            check.saw(("folder-mappings", L, own, others), nontrivial=True)
+            check.count("folder-mappings-" + L)
+            cfg = dict(tables[L], version_header=True, prefix="", module_name="",
+                       package={"go": "proto", "scala": "com.example", "kotlin": "com.example"}.get(L, ""))
+            direct = runner([{"op": "generate", "lang": L, "config": cfg, "multi_file": True, "target_os": [],
+                              "files": [{"src": A, "crate": "alpha", "file_name": "x", "path": "ws/alpha/src/lib.rs"},
+                                        {"src": B, "crate": "beta", "file_name": "x", "path": "ws/beta/src/lib.rs"}]}])[0]
+            case = {"lang": L, "toml": toml_text({}, tables), "sources": {"alpha/src/lib.rs": A, "beta/src/lib.rs": B}, "mode": "-d"}
+            if "ok" not in direct:
+                if r["rc"] == 0:
+                    check.violation("%s -d: the binary succeeds where the back end, handed the file's own table, fails (%s)" % (L, direct),
+                                    case=case, impl={"rc": r["rc"], "files": outs}, model=direct, failing_input=True)
+                    return
+                continue
+            if r["rc"] != 0:
+                check.violation("%s -d with per-language type_mappings tables: exit %s %s" % (L, r["rc"], r["err"][-300:]), case=case,
+                                impl={"rc": r["rc"]}, model=direct, failing_input=True)
+                return
+            for crate, want in direct["ok"].items():
+                if crate.startswith("<"):
+                    continue
+                got = [t for fn, t in outs.items() if fn.lower().startswith(crate.lower() + ".")]
+                if len(got) != 1 or got[0] != want:
+                    check.violation("%s -d: the module of crate `%s` written under a typeshare.toml whose [%s.type_mappings] maps %s and whose other "
+                                    "languages' tables map %s differs from the back end run with exactly the %s table: %s"
+                                    % (L, crate, L, own or "nothing", others, L, l2.text_diff(want, got[0] if got else "")),
+                                    case=case, impl={"files": outs}, model=direct, failing_input=True)
                     return
 
 
